@@ -897,8 +897,11 @@ class Node(object):
         the item removed from the list
 
         """
-        try: return self.childNodes.pop(index)
+        try: node = self.childNodes.pop(index)
         except: raise IndexError('object has no childNodes')
+        if getattr(node, 'parentNode', None) is self:
+            node.parentNode = None
+        return node
 
     def append(self, newChild, setParent=True):
         """
